@@ -441,6 +441,12 @@ func (t *ValueSet) result(r Result) Result {
 	// any pointers. We know this to be true already since we analyzed the
 	// function earlier.
 	if !t.lifted() {
+		// The slice may be shared with a memoized result (FuncOnce): unwrap
+		// in a copy so that a later use still sees the original values.
+		out := make([]reflect.Value, len(r.out))
+		copy(out, r.out)
+		r.out = out
+
 		for i := uint8(0); i < t.structPointers; i++ {
 			r.out[0] = r.out[0].Elem()
 		}
